@@ -253,5 +253,8 @@ theorem ni_stepOp {b : Bag} (h : NI b) (hr : Rect b) (op : Op) (hne : ¬ NameEdi
     · exact h
     · exact ni_addAllIgnore _ (ni_empty rfl rfl)
   | renameRe ok names => exact absurd trivial hne
+  | setAlpha a =>
+    obtain ⟨f1, f2, f3, -⟩ := setAlphabet_fields a b
+    exact h.congr f1 f2 f3
 
 end Gv.Proofs.BagAbs
